@@ -251,7 +251,7 @@ def build_harness(target="dirkdrv"):
         out = os.path.join(BUILD, "%s.%d" % (target, os.getpid()))
         # VERIF_COVER (development aid): build with coverage instrumentation of the repository's packages; the drivers then write
         # coverage data to $GOCOVERDIR, which shows the code that no check ever executes
-        cover = ["-cover", "-coverpkg=github.com/attestantio/dirk/..."] if os.environ.get("VERIF_COVER") and target != "ptkill" else []
+        cover = ["-cover", "-coverpkg=verifharness/...,github.com/attestantio/dirk/..."] if os.environ.get("VERIF_COVER") and target != "ptkill" else []
         p = subprocess.run(["go1.26", "build", "-tags", "verif"] + cover + ["-o", out, "./cmd/" + target], cwd=hdir, env=GOENV,
                            stdout=subprocess.PIPE, stderr=subprocess.STDOUT, text=True)
         if scratch:
